@@ -249,6 +249,31 @@ func corrNorm(c *Ctx, kind string, doc wire.V) {
 	c.Corr(map[string]interface{}{"op": "norm", "kind": kind, "doc": doc.Wire()}, impl, "normtext", map[string]interface{}{"kind": kind})
 }
 
+// corrClean ties the whole-document idempotence theorem (Codec/Idem.lean) to the implementation: the driver
+// evaluates `cleanB` (proved to imply the theorem's hypothesis `Clean`) on the implementation's first output;
+// whenever it holds, the implementation's second pass must reproduce the first output byte for byte.
+func corrClean(c *Ctx, kind string, text []byte) {
+	if c.Driver == "" || !c.HasOp("clean") {
+		return
+	}
+	out1, err, pan := roundTrip(kind, text)
+	if err != nil || pan != "" {
+		return
+	}
+	v, perr := wire.Parse(out1)
+	if perr != nil || !v.InModel() {
+		return
+	}
+	out2, err2, pan2 := roundTrip(kind, out1)
+	impl := "idempotent"
+	if err2 != nil || pan2 != "" || string(out1) != string(out2) {
+		impl = "not-idempotent"
+	}
+	c.CorrAs(map[string]interface{}{"op": "clean", "doc": v.Wire()}, impl, "implies",
+		map[string]interface{}{"kind": kind, "first_output": clip(string(out1)), "second_output": clip(string(out2))},
+		"C07:clean-output-not-a-fixed-point")
+}
+
 var refPoolC13 = []string{"HTTP://Example.COM:80/a//b.json#/x", "https://h:443/p", "a b.json", "é.json#/ü", "#/a~0b~1c", "./x/../y.json", "file:///C:/x.json", "//host/p"}
 
 func gobRef(r spec.Ref) (spec.Ref, error) {
